@@ -144,6 +144,63 @@ func vh_C04_Stream() {
 	} else {
 		vfAssert("lemma/"+op+"/fresh", vfOr(fresh, len(*r) == 0 && cap(*r) == 0))
 	}
+	// a second step through the public API: SortByIndex sorts the backing array of the stream it is called on in
+	// place; called on the RESULT (when that is a different object) it must not reach receiver, argument or bystander
+	if r != s && r != o && r != z && len(*r) >= 2 && len(*r) <= 3 {
+		if !vfPanics(func() { r.SortByIndex(func(i, j int) bool { return (*r)[i] > (*r)[j] }) }) {
+			vfUnchanged(op+"/sorting-the-result-leaves-existing-collections-unchanged", snap)
+		}
+	}
+	vfReach("end")
+}
+
+// SortByIndex is the one generic-stream operation that writes the backing array of the stream it is called on. After an
+// operation that returns a SHORTER stream (which could be a re-sliced view of the receiver), sorting either object in
+// place must not change the other. Receiver of length 3, every index / symbolic predicate.
+func vh_C04_StreamShrinkThenSort() {
+	a := vfIntList("a", 3, 0)
+	vfAssume(len(a) == 3)
+	b := vfIntList("b", 1, 0)
+	s, o := StreamFromArray(a), StreamFromArray(b)
+	ops := []string{"Remove", "Filter", "Reject", "RemoveItem", "Minus", "Intersection", "Distinct"}
+	op := ops[vfChoose("op", len(ops))]
+	var r *StreamDef[int]
+	if !vfNoPanic(op+"/nopanic", func() {
+		switch op {
+		case "Remove":
+			r = s.Remove(vfRange("idx", 0, 2))
+		case "Filter":
+			r = s.Filter(c04P)
+		case "Reject":
+			r = s.Reject(c04P)
+		case "RemoveItem":
+			r = s.RemoveItem(vfInt("x"))
+		case "Minus":
+			r = s.Minus(o)
+		case "Intersection":
+			r = s.Intersection(o)
+		default:
+			r = s.Distinct()
+		}
+	}) || r == nil || r == s {
+		vfReach("end")
+		return
+	}
+	if vfChoose("sort-which", 2) == 0 {
+		if len(*r) < 2 {
+			vfReach("end")
+			return
+		}
+		snap := vfSnapshot(s, o)
+		if !vfPanics(func() { r.SortByIndex(func(i, j int) bool { return (*r)[i] > (*r)[j] }) }) {
+			vfUnchanged(op+"/sorting-the-result-leaves-existing-collections-unchanged", snap)
+		}
+	} else {
+		snap := vfSnapshot(r)
+		if !vfPanics(func() { s.SortByIndex(func(i, j int) bool { return (*s)[i] > (*s)[j] }) }) {
+			vfUnchanged(op+"/sorting-the-receiver-leaves-the-earlier-result-unchanged", snap)
+		}
+	}
 	vfReach("end")
 }
 
